@@ -34,6 +34,8 @@ pub fn step(v: &RVal, idx: &RVal) -> Look {
                 other if other.parse::<i64>().is_ok() => Look::Unspec,
                 _ => Look::Missing,
             },
+            // a fractional number is no position: the step is missing (a whole float is not specified)
+            RVal::Float(f) if f.is_finite() && f.fract() != 0.0 => Look::Missing,
             _ => Look::Unspec,
         },
         RVal::Object(kv) => {
